@@ -27,6 +27,7 @@ From SV Require Import proofs.NglobCands.
 From SV Require Import proofs.NglobCands2.
 From SV Require Import proofs.NglobCands3.
 From SV Require Import proofs.NglobNamedWide.
+From SV Require Import proofs.NglobEndToEnd.
 Import ListNotations.
 Open Scope N_scope.
 
@@ -567,3 +568,63 @@ Example C17_example_candidates :
   /\ glob_paths ex_tree [115;114;99;47;42]
      = [[115;114;99;47;97;46;99]; [115;114;99;47;115;117;98;47]; [115;114;99;47;46;104;105;100;46;99]].
 Proof. vm_compute. repeat split. Qed.
+
+(* ========================================================================================== *)
+(* (6) End to end on G1S: no hypothesis about the candidate list is left.                      *)
+(* ========================================================================================== *)
+
+(* (1') with its two candidate hypotheses discharged by (5): for every pattern of G1S, any two
+   well-formed finite trees t, t' and any added / deleted lists that reflect the difference for the
+   accepted paths, updating what glob() recorded on t gives the dictionary glob() records on t',
+   and will_change answers None exactly when the two scans agree. *)
+Theorem C17_glob_update_equals_rescan_partial :
+  forall (t t' : list entry) (p : str) (subs : subs_t) (g : ng) (gp : str) (added deleted : list str),
+    wf_tree t = true -> wf_tree t' = true -> g1s p subs = true ->
+    ng_make p subs = COk g -> conv_glob p subs = COk gp ->
+    (forall q, In q added -> In q (all_paths t')) ->
+    (forall q, In q deleted -> ~ In q (all_paths t')) ->
+    (forall q, ng_mv g q <> None ->
+       (In q (all_paths t') <-> (In q (all_paths t) /\ ~ In q deleted) \/ In q added)) ->
+    let old := scan key_eqb (ng_mv g) (glob_paths t gp) in
+    let upd := reduce key_eqb (ng_mv g) (extend key_eqb (ng_mv g) old added) deleted in
+    results_eqb key_eqb upd (scan key_eqb (ng_mv g) (glob_paths t' gp)) = true
+    /\ (will_change key_eqb (ng_mv g) old deleted added = None
+        <-> results_eqb key_eqb old (scan key_eqb (ng_mv g) (glob_paths t' gp)) = true).
+Proof. exact glob_update_equals_rescan_g1s. Qed.
+
+(* The whole watch path: glob() on tree t (what register_nglob persisted), ANY sequence of queue
+   items folded by record_change whose meaning for accepted paths leads from t to t' (trace_ok,
+   including under_complete), pruning, commit by process_nglob_changes: the two sets do not overlap,
+   the row is rewritten exactly when glob() on t' differs from the old record, and it then holds a
+   dictionary equal to glob() on t'.  Assumptions left: accepted_relevant, under_complete (inside
+   trace_ok), pruned_existed (see (4)); the pattern lies in G1S. *)
+Theorem C17_watch_commit_equals_glob_partial :
+  forall (t t' : list entry) (p : str) (subs : subs_t) (g : ng) (gp : str)
+         (rel : bool -> str -> bool) (under : bool -> str -> list str)
+         (tr : list (item * list str)) (unchanged : list str),
+    wf_tree t = true -> wf_tree t' = true -> g1s p subs = true ->
+    ng_make p subs = COk g -> conv_glob p subs = COk gp ->
+    (forall db q, ng_mv g q <> None -> rel db q = true) ->
+    trace_ok key (ng_mv g) under (all_paths t) tr ->
+    (forall q, ng_mv g q <> None -> (In q (trace_final (all_paths t) tr) <-> In q (all_paths t'))) ->
+    (forall q, In q unchanged -> ng_mv g q <> None -> In q (all_paths t)) ->
+    let old := scan key_eqb (ng_mv g) (glob_paths t gp) in
+    let fresh := scan key_eqb (ng_mv g) (glob_paths t' gp) in
+    let st := prune unchanged (fold_changes rel under (map fst tr) ws_empty) in
+    overlap (ws_deleted st) (ws_updated st) = false
+    /\ forall new changed,
+         process_reg key_eqb (ws_deleted st) (ws_updated st) (ng_mv g, old) = ((ng_mv g, new), changed) ->
+         (changed = false <-> results_eqb key_eqb old fresh = true)
+         /\ results_eqb key_eqb new fresh = true.
+Proof. exact watch_commit_equals_glob_g1s. Qed.
+
+Example C17_example_end_to_end :
+  wf_tree e2e_t = true /\ wf_tree e2e_t' = true /\ g1s ex_pat1 [] = true
+  /\ (exists g, ng_make ex_pat1 [] = COk g
+        /\ files (scan key_eqb (ng_mv g) (glob_paths e2e_t [115;114;99;47;42;46;99])) = [[115;114;99;47;97;46;99]]
+        /\ will_change key_eqb (ng_mv g) (scan key_eqb (ng_mv g) (glob_paths e2e_t [115;114;99;47;42;46;99])) [] e2e_added <> None)
+  /\ conv_glob ex_pat1 [] = COk [115;114;99;47;42;46;99]
+  /\ (forall q, In q e2e_added -> In q (all_paths e2e_t'))
+  /\ (forall q, In q (@nil str) -> ~ In q (all_paths e2e_t'))
+  /\ (forall q, In q (all_paths e2e_t') <-> (In q (all_paths e2e_t) /\ ~ In q (@nil str)) \/ In q e2e_added).
+Proof. exact glob_update_equals_rescan_g1s_hyps_satisfiable. Qed.
